@@ -2,6 +2,7 @@ package scen
 
 import (
 	"encoding/json"
+	"errors"
 	"fmt"
 	"math/rand/v2"
 	"os"
@@ -27,8 +28,11 @@ type CohMut struct {
 	Kind string          `json:"k"` // create | update | delete
 	ID   string          `json:"id"`
 	Val  json.RawMessage `json:"v,omitempty"`
-	Y    int             `json:"y,omitempty"` // yields inside the transaction
+	Y    int             `json:"y,omitempty"`    // yields inside the transaction
 	Cont bool            `json:"cont,omitempty"` // same write transaction as the previous mutation (same id)
+	// CommitErr: the commit of this mutation is refused (disk error; badger
+	// backend only)
+	CommitErr bool `json:"commit_err,omitempty"`
 }
 
 // CohCase is a case of the store-handler coherence scenario.
@@ -101,6 +105,9 @@ func (StoreCohScenario) GenCase(r *rand.Rand, prop string) interface{} {
 					// several mutations inside one write transaction
 					m.ID, m.Cont = muts[len(muts)-1].ID, true
 				}
+				if c.Backend == "badger" && chance(r, 8) {
+					m.CommitErr = true
+				}
 				if m.Kind != "delete" {
 					if c.Coll {
 						m.Val = genCollValue(r)
@@ -170,6 +177,9 @@ type cohRun struct {
 	m    *miniSvc
 	st   store.Store
 	mock *mockstore.Store
+	// injected commit errors, by task name
+	failCommit map[string]bool
+	commitErrs int
 }
 
 func (cr *cohRun) storeID(id string) string {
@@ -222,7 +232,7 @@ func (cr *cohRun) decodeVal(raw json.RawMessage) interface{} {
 func (StoreCohScenario) Execute(sim *sched.Sim, ci interface{}, prop string, race bool) *Outcome {
 	c := ci.(*CohCase)
 	h := NewHist(sim)
-	cr := &cohRun{c: c, sim: sim, h: h}
+	cr := &cohRun{c: c, sim: sim, h: h, failCommit: map[string]bool{}}
 	sim.Optional = map[string]bool{}
 	for _, p := range c.Optional {
 		sim.Optional[p] = true
@@ -270,7 +280,16 @@ func (StoreCohScenario) Execute(sim *sched.Sim, ci interface{}, prop string, rac
 	badger.VerifHook = yield
 	keylock.Hook = yield
 	taskqueue.Hook = yield
+	badger.VerifCommitFault = func() error {
+		if t := sim.Current(); t != nil && cr.failCommit[t.Name] {
+			cr.failCommit[t.Name] = false
+			cr.commitErrs++
+			return errors.New("simulated disk error at commit")
+		}
+		return nil
+	}
 	defer func() {
+		badger.VerifCommitFault = nil
 		res.VerifHook = nil
 		badgerstore.VerifHook = nil
 		badger.VerifHook = nil
@@ -434,7 +453,7 @@ func (StoreCohScenario) Execute(sim *sched.Sim, ci interface{}, prop string, rac
 	for _, p := range sim.Panics {
 		h.Violate("C10", "panic", panicSignature(p), p)
 	}
-	out := &Outcome{Faults: map[string]int{}, Evals: evals + h.Evals}
+	out := &Outcome{Faults: map[string]int{"commit-error": cr.commitErrs}, Evals: evals + h.Evals}
 	nm := 0
 	for _, r := range c.Rounds {
 		for _, ms := range r {
@@ -472,6 +491,13 @@ func (cr *cohRun) mutate(muts []CohMut) {
 					cr.sim.Yield("mut.intxn", mu.ID)
 				}
 			}
+			name := ""
+			if t := cr.sim.Current(); t != nil {
+				name = t.Name
+			}
+			if mu.CommitErr && cr.mock == nil {
+				cr.failCommit[name] = true
+			}
 			switch mu.Kind {
 			case "create":
 				wt.Create(cr.decodeVal(mu.Val))
@@ -480,6 +506,7 @@ func (cr *cohRun) mutate(muts []CohMut) {
 			case "delete":
 				wt.Delete()
 			}
+			cr.failCommit[name] = false
 		}
 		wt.Close()
 	}
